@@ -124,6 +124,16 @@ impl HtmlFilterBodyAction {
                 token_data = tokenizer.raw_as_string()?;
             }
 
+            // A comment or doctype which reaches the end of the chunk is not finished yet: wait for
+            // the rest of it, otherwise its remainder would be parsed as markup in the next chunk
+            if (token_type == html::TokenType::CommentToken || token_type == html::TokenType::DoctypeToken) && tokenizer.err().is_some() {
+                self.last_buffer = token_data.into_bytes();
+                self.last_buffer.extend(tokenizer.buffered());
+                self.last_buffer.extend(incomplete_char);
+
+                break;
+            }
+
             match token_type {
                 html::TokenType::StartTagToken => {
                     let (tag_name, _) = tokenizer.tag_name()?;
